@@ -34,7 +34,9 @@ ASSUMPTIONS = [
     "shown not to matter (hash_ignores_kw_order_export_order_length) but are not demanded by the oracle",
 ]
 RULE = ("expression trees generated over the four classes (TaskExpression, SchedulerExpression, SimpleExpression, ValueExpression) "
-        "with nested expression arguments, keyword arguments, option dicts (values incl. None, 0, "", [], {}, False), export-option sets and lengths, built as real objects; "
+        "with nested expression arguments, keyword arguments, option dicts (values incl. None, 0, "", [], {}, False and the look-alike families {0, 0.0, -0.0, False}, {1, 1.0, True}, {2, 2.0}, "
+        "which also occur as argument, keyword and wrapped values; every ordered pair of look-alikes in every position is hashed in "
+        "this process and in two fresh interpreters in forward/reverse order), export-option sets and lengths, built as real objects; "
         "each real get_hash() pre-image (hash_struct wrapped) is compared with the model's; every expression is paired with "
         "single-component variants (kind, name, one argument changed/added/removed, two positional arguments swapped, positional "
         "moved to keyword, keyword value/name/removal, two keyword values swapped, options, exported options) whose real hashes "
@@ -61,15 +63,29 @@ OPTKEYS = ["cache_scope", "memory", "executor", "prov"]
 # option values: a label is the int itself, except these labels which stand for None and the other falsy values
 FALSY = {100: None, 101: 0, 102: "", 103: [], 104: {}, 105: False}
 FALSY_NAME = {100: "none", 101: "zero", 102: "empty-str", 103: "empty-list", 104: "empty-dict", 105: "false"}
+# look-alike values: equal under Python == (and hash()) but different values/types/pickles; ints 1 and 2 are the plain labels 1, 2
+SPECIAL = dict(FALSY)
+SPECIAL.update({106: 0.0, 107: -0.0, 109: 1.0, 110: True, 112: 2.0})
+FAMILIES = [[101, 106, 107, 105], [1, 109, 110], [2, 112]]      # {0, 0.0, -0.0, False}, {1, 1.0, True}, {2, 2.0}
+LOOKALIKE = [x for fam in FAMILIES for x in fam]
+
+
+def family_of(label):
+    for fam in FAMILIES:
+        if label in fam:
+            return fam
+    return None
 
 
 def optval(n):
-    return copy.deepcopy(FALSY[n]) if n in FALSY else n
+    """label -> value (for option values, plain argument values and ValueExpression values)"""
+    return copy.deepcopy(SPECIAL[n]) if n in SPECIAL else n
 
 
 def optlabel(v):
-    for n, f in FALSY.items():
-        if type(v) is type(f) and v == f:
+    """value -> label, type- and sign-aware (1, True and 1.0 are three different values)"""
+    for n, f in SPECIAL.items():
+        if type(v) is type(f) and repr(v) == repr(f):
             return n
     return v
 
@@ -78,14 +94,14 @@ def optlabel(v):
 def gen_node(rng, depth, top=False):
     k = rng.random()
     if not top and (depth <= 0 or k < 0.35):
-        return ("lit", rng.randrange(1, 40))
+        return ("lit", rng.choice(LOOKALIKE) if rng.random() < 0.2 else rng.randrange(1, 40))
     if k < 0.45 and not top or (top and k < 0.08):
-        return ("value", rng.randrange(1, 40))
+        return ("value", rng.choice(LOOKALIKE) if rng.random() < 0.2 else rng.randrange(1, 40))
     args = tuple(gen_node(rng, depth - 1) for _ in range(rng.choice([0, 1, 1, 2, 3])))
     kw = tuple((key, gen_node(rng, depth - 1)) for key in rng.sample(["a", "b", "k", "zz"], rng.choice([0, 0, 1, 2])))
     if k < 0.62:
         return ("simple", rng.choice(FUNCS), args, kw)
-    opts = tuple((key, rng.choice([100, 100, 101, 102, 103, 104, 105]) if rng.random() < 0.3 else rng.randrange(1, 9))
+    opts = tuple((key, rng.choice([100, 100, 101, 102, 103, 104, 105] + LOOKALIKE) if rng.random() < 0.4 else rng.randrange(1, 9))
                  for key in rng.sample(OPTKEYS, rng.choice([0, 0, 1, 2])))
     ex = tuple(rng.sample(OPTKEYS, rng.choice([0, 0, 0, 1, 2])))
     length = rng.choice([None, None, 2, 3])
@@ -124,12 +140,15 @@ class Real:
     def build(self, n):
         E = self.E
         if n[0] == "lit":
-            self.log.leaf_value(self.reg.get_hash(n[1]), n[1])
-            self.leaf(self.reg.get_hash(n[1]), "v%d" % n[1])
-            return n[1]
+            v = optval(n[1])
+            self.log.leaf_value(self.reg.get_hash(v), n[1])
+            self.leaf(self.reg.get_hash(v), "v%d" % n[1])
+            return v
         if n[0] == "value":
-            self.log.leaf_value(self.reg.get_hash(n[1]), n[1])
-            return E.ValueExpression(n[1])
+            v = optval(n[1])
+            self.log.leaf_value(self.reg.get_hash(v), n[1])
+            self.leaf(self.reg.get_hash(v), "v%d" % n[1])
+            return E.ValueExpression(v)
         if n[0] == "simple":
             _, f, args, kw = n
             return E.SimpleExpression(f, tuple(self.build(a) for a in args), {k: self.build(v) for k, v in kw})
@@ -152,8 +171,8 @@ class Real:
         if isinstance(x, E.SimpleExpression):
             return ("simple", x.func_name, tuple(self.unbuild(a) for a in x.args), tuple((k, self.unbuild(v)) for k, v in x.kwargs.items()))
         if isinstance(x, E.ValueExpression):
-            return ("value", x.value)
-        return ("lit", x)
+            return ("value", optlabel(x.value))
+        return ("lit", optlabel(x))
 
 
 def norm(n):
@@ -174,8 +193,21 @@ def ident(n):
     return (n[0], n[1], tuple(map(ident, n[2])), tuple(sorted((k, ident(v)) for k, v in n[3])), n[4], tuple(sorted(n[5])))
 
 
+def lookalike_of(rng, label):
+    fam = family_of(label)
+    return rng.choice([x for x in fam if x != label]) if fam else None
+
+
 def arg_variants(rng, args, kw):
     """changes of the argument binding only: (what, args2, kw2); each denotes a different call"""
+    for i, a in enumerate(args):
+        if a[0] in ("lit", "value") and family_of(a[1]):
+            yield "argument-lookalike", args[:i] + ((a[0], lookalike_of(rng, a[1])),) + args[i + 1:], kw
+            break
+    for i, (k, a) in enumerate(kw):
+        if a[0] in ("lit", "value") and family_of(a[1]):
+            yield "keyword-value-lookalike", args, kw[:i] + ((k, (a[0], lookalike_of(rng, a[1]))),) + kw[i + 1:]
+            break
     pairs = [(i, j) for i in range(len(args)) for j in range(i + 1, len(args)) if ident(args[i]) != ident(args[j])]
     if pairs:
         i, j = rng.choice(pairs)
@@ -205,7 +237,9 @@ def arg_variants(rng, args, kw):
 def variants(rng, n):
     """single-component changes: (what, node2); each denotes a different call, so all must get a different hash"""
     if n[0] == "value":
-        yield "value", ("value", n[1] + 100)
+        yield "value", ("value", n[1] + 200)
+        if family_of(n[1]):
+            yield "value-lookalike", ("value", lookalike_of(rng, n[1]))
         return
     if n[0] == "simple":
         _, f, args, kw = n
@@ -225,6 +259,10 @@ def variants(rng, n):
     yield "options-added-none", (kind, name, args, kw, opts + ((free[0], 100),), ex, length)
     lab = rng.choice([101, 102, 103, 104, 105])
     yield "options-added-" + FALSY_NAME[lab], (kind, name, args, kw, opts + ((free[-1], lab),), ex, length)
+    for i, (k, v) in enumerate(opts):
+        if family_of(v):
+            yield "options-value-lookalike", (kind, name, args, kw, opts[:i] + ((k, lookalike_of(rng, v)),) + opts[i + 1:], ex, length)
+            break
     if opts:
         if opts[0][1] != 100:
             yield "options-value-to-none", (kind, name, args, kw, ((opts[0][0], 100),) + opts[1:], ex, length)
@@ -299,6 +337,7 @@ def run(ctx):
             plan.append((n, h, pairs, rt, rt_hash, (ch, ups, cached)))
         impl_pre = [log.render(p[1]) for p in plan]
         legacy = legacy_states(ctx, rng, real)
+        la_nodes = lookalike_pairs(ctx, real)
     out = ctx.model("C18", reqs + [r for r, _, _ in legacy])
 
     old_tree = 0
@@ -345,6 +384,101 @@ def run(ctx):
         if mo != impl:
             ctx.mismatch("__setstate__ of a legacy/malformed state differs from the model", case=info, model=mo, impl=impl)
     merged_under_one_parent(ctx)
+    fresh_processes(ctx, la_nodes + [n for n in nodes[:60]])
+
+
+# ------------------------------------------------------------------ look-alike values: 0 / 0.0 / -0.0 / False, 1 / 1.0 / True, 2 / 2.0
+def lookalike_shapes(a):
+    """the same call shape with the value label `a` as option value, argument, keyword argument, operand, wrapped value"""
+    return [
+        ("option-value", ("task", "f", (("lit", 5),), (), (("flag", a),), (), None)),
+        ("option-value", ("sched", "redun.catch", (("lit", 5),), (), (("flag", a), ("memory", 3)), (), None)),
+        ("option-value", ("task", "f", (), (), (("retries", a),), ("retries",), None)),
+        ("argument", ("task", "f", (("lit", a),), (), (), (), None)),
+        ("argument", ("sched", "redun.cond", (("lit", a), ("lit", 5), ("lit", 6)), (), (), (), None)),
+        ("keyword-value", ("task", "f", (), (("k", ("lit", a)),), (), (), None)),
+        ("argument", ("simple", "add", (("lit", a), ("lit", 5)), ())),
+        ("argument", ("simple", "getitem", (("task", "f", (), (), (), (), None), ("lit", a)), ())),
+        ("value", ("value", a)),
+    ]
+
+
+def lookalike_pairs(ctx, real):
+    """every ordered pair of look-alike values in every position: different value (type-aware) => different hash.
+    Returns the nodes (for the fresh-process comparison)."""
+    nodes = []
+    for fam in FAMILIES:
+        for a in fam:
+            nodes += [n for _, n in lookalike_shapes(a)]
+            for b in fam:
+                if a == b:
+                    continue
+                for (what, na), (_, nb) in zip(lookalike_shapes(a), lookalike_shapes(b)):
+                    ea, eb = real.build(na), real.build(nb)
+                    ha = ea.get_hash()          # `a` is hashed first, then `b`
+                    hb = eb.get_hash()
+                    ctx.case(key=("lookalike", na, nb), part="look-alike-pairs", position=what,
+                             values="%r vs %r" % (optval(a), optval(b)))
+                    if ha == hb:
+                        ctx.violation("C18-same-hash-different-call-%s-lookalike-%s" % (what, na[0]),
+                                      "two %s expressions whose %s differ only by type/sign (%r vs %r) have the same hash"
+                                      % (na[0], what, optval(a), optval(b)),
+                                      case={"a": repr(ea), "b": repr(eb), "node_a": na, "node_b": nb,
+                                            "value_a": repr(optval(a)), "value_b": repr(optval(b)), "hashed_first": "a"},
+                                      expected="different hashes", actual="equal")
+    return nodes
+
+
+def worker():
+    """fresh process: read a JSON list of nodes, build and hash them in that order, print the hashes"""
+    import json
+    import sys
+    real = Real(HashLog())
+    nodes = [_tuplify(n) for n in json.load(sys.stdin)]
+    print(json.dumps([real.build(n).get_hash() for n in nodes]))
+
+
+def fresh_processes(ctx, nodes):
+    """The hash is a function of the expression alone: hash the same expressions in two fresh interpreters, in forward
+    and in reverse order, and in this process; different calls must differ in each, one call must agree in all."""
+    import json
+    import os
+    import subprocess
+    import sys
+    from core import REPO, VERIF
+    seen, uniq = set(), []
+    for n in nodes:
+        if n[0] != "lit" and ident(n) not in seen:
+            seen.add(ident(n))
+            uniq.append(n)
+    real = Real(HashLog())
+    here = [real.build(n).get_hash() for n in uniq]
+    code = "import sys; sys.path[:0] = [%r, %r]; from props.C18 import worker; worker()" % (os.path.join(VERIF, "harness"), REPO)
+    runs = {"this-process": here}
+    for order in ("forward", "reverse"):
+        seq = uniq if order == "forward" else uniq[::-1]
+        r = subprocess.run([sys.executable, "-c", code], input=json.dumps(seq), capture_output=True, text=True, timeout=300)
+        if r.returncode != 0:
+            raise RuntimeError("C18 worker failed: " + r.stderr[-800:])
+        hs = json.loads(r.stdout.strip().split("\n")[-1])
+        runs["fresh-" + order] = hs if order == "forward" else hs[::-1]
+    ctx.case(key=("fresh-processes", len(uniq)), part="fresh-processes", expressions=len(uniq))
+    for name, hs in runs.items():
+        byhash = {}
+        for n, h in zip(uniq, hs):
+            if h in byhash and ident(byhash[h]) != ident(n):
+                ctx.violation("C18-same-hash-different-call-in-" + name,
+                              "two different calls have the same hash (expressions hashed in %s order)" % name,
+                              case={"node_a": byhash[h], "node_b": n, "a": repr(real.build(byhash[h])), "b": repr(real.build(n)),
+                                    "process": name}, expected="different hashes", actual="equal")
+            byhash.setdefault(h, n)
+    for i, n in enumerate(uniq):
+        hs = {name: runs[name][i] for name in runs}
+        if len(set(hs.values())) > 1:
+            ctx.violation("C18-hash-depends-on-hashing-history",
+                          "the hash of one expression differs between processes that hashed other expressions before it "
+                          "(an expression pickled here and loaded elsewhere changes its hash)",
+                          case={"node": n, "expr": repr(real.build(n))}, expected="one hash", actual=repr(hs))
 
 
 # ------------------------------------------------------------------ scheduler level: equal hashes are merged under one parent job
